@@ -136,7 +136,13 @@ pub fn gen_input(ctx: &Ctx, case_idx: u64, rng: &mut Rng) -> (String, Vec<u8>) {
 }
 
 pub fn run(ctx: &Ctx, rep: &mut Reporter) {
+    if ctx.only_case.is_none() || ctx.only_case == Some(SWEEP_CASE) {
+        size_sweep(ctx, rep, "differential");
+    }
     for case_idx in ctx.case_range() {
+        if case_idx == SWEEP_CASE {
+            continue;
+        }
         let mut rng = ctx_rng(ctx, case_idx);
         let (kind, text) = gen_input(ctx, case_idx, &mut rng);
         let (items, _) = cur::records(&text, usize::MAX);
